@@ -23,3 +23,59 @@ func BoundedScan(ctx sdk.Context, key storetypes.StoreKey, first, last []byte) i
 	}
 	return n
 }
+
+var section = []byte{0x11}
+
+func sized(addr []byte) []byte {
+	key := make([]byte, 0, len(section)+2*len(addr))
+	key = append(key, section...)
+	return append(key, addr...)
+}
+
+func complete(prefix, sender []byte) []byte { return append(prefix, sender...) }
+
+// KeysOfOneReceiverShared builds the keys of several senders on one pre-sized receiver prefix: they share its array
+// (positive control for the append-alias rule).
+func KeysOfOneReceiverShared(receiver []byte, senders [][]byte) [][]byte {
+	var keys [][]byte
+	prefix := sized(receiver)
+	for _, s := range senders {
+		keys = append(keys, complete(prefix, s))
+	}
+	return keys
+}
+
+// TwoKeysFromOnePrefix is the straight-line form.
+func TwoKeysFromOnePrefix(receiver, a, b []byte) ([]byte, []byte) {
+	prefix := sized(receiver)
+	return append(prefix, a...), append(prefix, b...)
+}
+
+// KeysOfOneReceiverFresh builds the prefix anew for every key (negative control).
+func KeysOfOneReceiverFresh(receiver []byte, senders [][]byte) [][]byte {
+	var keys [][]byte
+	for _, s := range senders {
+		keys = append(keys, complete(sized(receiver), s))
+	}
+	return keys
+}
+
+// KeysFromSection appends to the literal section prefix, which has no room to spare (negative control).
+func KeysFromSection(senders [][]byte) [][]byte {
+	var keys [][]byte
+	for _, s := range senders {
+		keys = append(keys, append(section, s...))
+	}
+	return keys
+}
+
+// KeysFromClippedPrefix clips the capacity before sharing the prefix (negative control).
+func KeysFromClippedPrefix(receiver []byte, senders [][]byte) [][]byte {
+	var keys [][]byte
+	prefix := sized(receiver)
+	prefix = prefix[:len(prefix):len(prefix)]
+	for _, s := range senders {
+		keys = append(keys, complete(prefix, s))
+	}
+	return keys
+}
